@@ -367,6 +367,8 @@ def run(ctx):
     c01.r01a(ctx)     # R10c: only a surplus tail is removed or inserted, pairs strictly by position
     c01.r01d(ctx)     # `none`: partner looked up by the same key
     c01.r01c(ctx)     # `auto`: key pre-match pairs equal keys and skips no candidate
+    from ..oneshot import e11
+    e11(ctx)          # ... and the scan over the other mapping starts afresh for every key
     r10d(ctx)
     from . import c02
     c02.r02g(ctx)     # 'keys differ' is decided by leaf equality: a boolean key is not a numeric key
